@@ -151,6 +151,71 @@ theorem no_backdating_partial (h : Bytes → Bytes) (f : File) (hwf : WF f) (sec
    add_lease / renew_lease) and the monitor checks both statements on the real code; for immutable
    containers Lean proves `unknown_renew_noop_error` and `v2_no_cleartext` only. -/
 
+/-! ### cancel_lease (mutable container; the lease crawler's way of removing expired leases) -/
+
+/-- cancelling with a secret no listed lease carries changes nothing and raises `IndexError` -/
+theorem cancel_unknown_noop_error (h : Bytes → Bytes) (f : File) (s : Schema) (hs : Mutable.schemaOf f = some s)
+    (secret : Bytes) (hun : ∀ p ∈ enumerateLeases f, isCancelSecret h s p.2 secret = false) :
+    Mutable.cancelLease h f secret = (some f, 0, some .indexError) := by
+  have : (enumerateLeases f).filter (fun p => isCancelSecret h s p.2 secret) = [] := by
+    rw [List.filter_eq_nil_iff]; intro p hp; simp [hun p hp]
+  simp only [Mutable.cancelLease, hs, this, List.isEmpty_nil, if_true]
+
+/-- **cancel removes exactly the leases with that cancel secret**: when `cancel_lease` succeeds and the
+    share survives, the container is still well formed, share data and write enabler are untouched, and the
+    lease list is the old one minus the leases carrying the cancel secret — every other lease keeps its
+    slot number and its record (the blanked slots stay behind as holes: `_pack_leases` is a no-op) -/
+theorem cancel_removes_exactly (h : Bytes → Bytes) (f : File) (hwf : WF f) (s : Schema)
+    (hs : Mutable.schemaOf f = some s) (secret : Bytes) (f' : File) (freed : Nat)
+    (hc : Mutable.cancelLease h f secret = (some f', freed, none)) :
+    WF f' ∧ absData f' = absData f ∧ enabler f' = enabler f ∧
+    enumerateLeases f' = (enumerateLeases f).filter (fun p => !isCancelSecret h s p.2 secret) := by
+  simp only [Mutable.cancelLease, hs] at hc
+  split at hc
+  · simp at hc
+  · split at hc
+    · simp at hc
+    · simp only [Prod.mk.injEq, Option.some.injEq] at hc
+      obtain ⟨rfl, _, _⟩ := hc
+      have hblank : decodeRec (serMut (toStored h s blankLease)) = none :=
+        decodeRec_blank _ (by cases s <;> rfl)
+      have his : ∀ i ∈ ((enumerateLeases f).filter (fun p => isCancelSecret h s p.2 secret)).map (·.1),
+          i < 4 + numExtra f := by
+        intro i hi
+        rw [List.mem_map] at hi
+        obtain ⟨p, hp, rfl⟩ := hi
+        exact (mem_enumerateLeases.mp (List.mem_filter.mp hp).1).1
+      obtain ⟨a, b, c, _, e⟩ := blankSlots_spec _ (length_serMut _) hblank _ f hwf his
+      refine ⟨a, b, c, ?_⟩
+      rw [e]
+      apply List.filter_congr
+      intro p hp
+      obtain ⟨j, x⟩ := p
+      by_cases hm : isCancelSecret h s x secret = true
+      · have : (j, x) ∈ (enumerateLeases f).filter (fun p => isCancelSecret h s p.2 secret) :=
+          List.mem_filter.mpr ⟨hp, hm⟩
+        have hj : j ∈ ((enumerateLeases f).filter (fun p => isCancelSecret h s p.2 secret)).map (·.1) :=
+          List.mem_map.mpr ⟨(j, x), this, rfl⟩
+        simp [hm, hj]
+      · have hnot : j ∉ ((enumerateLeases f).filter (fun p => isCancelSecret h s p.2 secret)).map (·.1) := by
+          intro hj
+          rw [List.mem_map] at hj
+          obtain ⟨q, hq, e1⟩ := hj
+          obtain ⟨k, y⟩ := q
+          simp only at e1; subst e1
+          have hq' := List.mem_filter.mp hq
+          have r1 := (mem_enumerateLeases.mp hq'.1).2
+          have r2 := (mem_enumerateLeases.mp hp).2
+          rw [r1] at r2
+          simp only [Option.some.injEq] at r2
+          subst r2
+          exact hm hq'.2
+        simp [hm, hnot]
+
+/- `ImmL.cancelLease` (immutable container: remaining leases re-packed, count rewritten, file truncated, file
+   unlinked when no lease is left) and the unlink case of the mutable container are tied to the code by the C25
+   correspondence only (results, freed-space values, lease lists and raw bytes after every cancel). -/
+
 /-! ### leases survive data writes and container growth -/
 
 /-- any `writev` (growth, relocation of the extra-lease block, truncation, even a failing call) keeps
